@@ -373,6 +373,15 @@ class Executor:
             )
             run.interrupted_defer = step.mark_completed(new_hash, wants_defer)
             self.scheduler.record_run_stopped(step.i, succeeded=new_hash is not None)
+            if new_hash is not None and (
+                step.uses_shell() != run.launched_shell
+                or step.get_env_overrides() != run.launched_env_overrides
+            ):
+                # The step was declared again with another shell flag or other overrides
+                # while its command ran: what was built belongs to the old declaration.
+                # The stored hash says so, which makes the check of the pending step fail
+                # and the command run again.
+                self.workflow.mark_step_pending(step)
             if wants_defer and not run.interrupted_defer:
                 # Erase error info to keep the screen output concise.
                 run.outcome = None
@@ -807,8 +816,14 @@ class Executor:
                     inp_hashes[rec.path] = rec.hash
             env_deps = list(run.step.env_deps())
             out_hashes = {rec.path: rec.hash for rec in run.step.out_paths()}
-            shell = run.step.uses_shell()
-            env_overrides = run.step.get_env_overrides()
+            # The hash describes the command that ran, so it is made of what that command
+            # was started with, not of what a later declaration of the step says.
+            shell = run.step.uses_shell() if run.launched_shell is None else run.launched_shell
+            env_overrides = (
+                run.step.get_env_overrides()
+                if run.launched_env_overrides is None
+                else run.launched_env_overrides
+            )
 
         result = await self._run_work_thread(
             run, functools.partial(compute_both_hashes, inp_hashes, out_hashes)
@@ -859,6 +874,8 @@ class Executor:
         # Outputs declared later are handled by the `amend_step` RPC.
         self.workflow.create_dirs([workdir, *(Path(path).parent for path in out_paths + vol_paths)])
 
+        run.launched_shell = shell
+        run.launched_env_overrides = dict(env_overrides)
         env = dict(self.base_env)
         # Apply step-specific overrides first, so the reserved variables below always win.
         env.update(env_overrides)
